@@ -8,6 +8,7 @@
 package main
 
 import (
+	"encoding/json"
 	"fmt"
 	"math/rand"
 	"os"
@@ -27,7 +28,7 @@ import (
 func main() { hx.Main("C14", run) }
 
 func run(r *hx.Result, cfg hx.Config) {
-	r.Rule = "A: in-package op sequences (set with/without deadline, move deadline, persist, delete, sweeps at random instants) over 6 ids on the real Collection vs the extracted model: objects, expiry-index order, sweep victims; non-trivial = distinct sequence in which a sweep removed at least one object and kept at least one with a deadline. B: black-box sequences with long deadlines: TTL class (-2/-1/>=0) per id after every command vs the model. C: timed scenarios with 0.4-0.9 s deadlines polled every 40 ms; non-trivial = scenario in which at least one object expired and at least one former-deadline object survived."
+	r.Rule = "A: in-package op sequences (set with/without deadline, move deadline, persist, delete, sweeps at random instants) over 6 ids on the real Collection vs the extracted model: objects, expiry-index order, sweep victims; non-trivial = distinct sequence in which a sweep removed at least one object and kept at least one with a deadline. B: black-box sequences with long deadlines: TTL class (-2/-1/>=0) per id after every command vs the model. C: timed scenarios with 0.4-0.9 s deadlines polled every 40 ms; non-trivial = scenario in which at least one object expired and at least one former-deadline object survived. C also: channels and hooks re-declared with the identical definition and another EX (EX 0.4-0.7 then EX 100; permanent then EX 0.4-0.7 then permanent again; EX then permanent; plain EX), polled through CHANS/HOOKS every 40 ms and their reported ttl read after each declaration."
 	r.Assumptions = []string{"client clock and server clock are the same machine clock", "bounded delay asserted: an expired object is gone 1.5 s after its deadline (100 ms sweeper + scheduling slack)"}
 	rng := rand.New(rand.NewSource(cfg.Seed))
 	drv, err := model.Start("expire")
@@ -451,5 +452,211 @@ func timed(r *hx.Result, rng *rand.Rand, cfg hx.Config) {
 			mu.Unlock()
 		}(i, seed)
 	}
+	// hooks and channels re-declared with the identical definition and another EX: the deadline moves
+	// (c14_redeclare_moves_deadline under hook = id, definition = payload)
+	nh := 2
+	if cfg.Tier == "thorough" || cfg.Search {
+		nh = 12
+	}
+	for i := 0; i < nh; i++ {
+		wg.Add(1)
+		seed := rng.Int63()
+		go func(i int, seed int64) {
+			defer wg.Done()
+			sem <- struct{}{}
+			defer func() { <-sem }()
+			timedHooks(r, &mu, cfg, i, seed)
+		}(i, seed)
+	}
 	wg.Wait()
+}
+
+type hwatch struct {
+	kind, name, mode string // kind CHAN | HOOK; mode moved | perm-then-ex | ex-then-perm | plain-ex
+	setAt            time.Time
+	ttl              time.Duration
+	deadline         time.Time // upper bound of the deadline in force; zero: must survive
+	gone             time.Time
+	expiredOnce      bool
+	history          []string
+}
+
+// timedHooks: for channels and for hooks (http endpoint on a closed port)
+//
+//	moved         SET* n EX 0.4-0.7 <def> ; SET* n EX 100 <def>   -> still listed 1.5 s after the old deadline
+//	perm-then-ex  SET* n <def> ; SET* n EX 0.4-0.7 <def>          -> listed until the deadline, gone within the bound;
+//	              then SET* n <def> again                          -> never disappears (no stale entry)
+//	ex-then-perm  SET* n EX 0.4-0.7 <def> ; SET* n <def>          -> never disappears
+//	plain-ex      SET* n EX 0.4-0.7 <def>                         -> gone within the bound, not before
+//
+// polled through CHANS * / HOOKS * every 40 ms; the reported ttl is checked right after each declaration.
+func timedHooks(r *hx.Result, mu *sync.Mutex, cfg hx.Config, i int, seed int64) {
+	lr := rand.New(rand.NewSource(seed))
+	dir := filepath.Join(cfg.Work, fmt.Sprintf("th%d", i))
+	s, err := srv.Start(dir)
+	if err != nil {
+		panic(err)
+	}
+	defer func() { s.Kill() }()
+	fail := func(sig, what string, cs interface{}) {
+		mu.Lock()
+		r.Fail(hx.Failure{Kind: "oracle", Signature: sig, What: what, Case: cs})
+		mu.Unlock()
+	}
+	c := s.MustDial()
+	defer c.Close()
+	cj := s.MustDial() // JSON output: the listing carries "ttl"
+	defer cj.Close()
+	cj.MustDo("OUTPUT", "json")
+	endpoint := fmt.Sprintf("http://127.0.0.1:%d/hook", srv.FreePort())
+	def := []string{"NEARBY", "fleet", "FENCE", "DETECT", "enter,exit", "POINT", "33", "-112", "5000"}
+	declare := func(w *hwatch, ex string) {
+		a := []string{"SET" + w.kind, w.name}
+		if w.kind == "HOOK" {
+			a = append(a, endpoint)
+		}
+		if ex != "" {
+			a = append(a, "EX", ex)
+		}
+		a = append(a, def...)
+		w.history = append(w.history, strings.Join(a, " "))
+		if v := c.MustDo(a...); v.Kind == '-' {
+			fail("hook-setup", fmt.Sprintf("%q refused: %s", strings.Join(a, " "), v.String()), w.history)
+		}
+	}
+	// ttl as HOOKS / CHANS report it in JSON: -1 none, -2 not listed
+	ttlOf := func(w *hwatch) int {
+		v := cj.MustDo(w.kind+"S", w.name)
+		var reply map[string]json.RawMessage
+		var items []struct {
+			Name string  `json:"name"`
+			TTL  float64 `json:"ttl"`
+		}
+		if json.Unmarshal([]byte(v.Str), &reply) == nil {
+			json.Unmarshal(reply[strings.ToLower(w.kind)+"s"], &items)
+		}
+		for _, it := range items {
+			if it.Name == w.name {
+				return int(it.TTL)
+			}
+		}
+		return -2
+	}
+	wantTTL := func(w *hwatch, lo, hi int, what string) {
+		if t := ttlOf(w); t < lo || t > hi {
+			fail("hook-deadline-not-moved", fmt.Sprintf("%s %s %s: the listing reports ttl %d, expected %d..%d", strings.ToLower(w.kind), w.name, what, t, lo, hi), w.history)
+		}
+	}
+	shortEX := func() (string, time.Duration) {
+		ms := 400 + lr.Intn(300)
+		return fmt.Sprintf("%.3f", float64(ms)/1000), time.Duration(ms) * time.Millisecond
+	}
+	var ws []*hwatch
+	start := time.Now()
+	for _, kind := range []string{"CHAN", "HOOK"} {
+		p := strings.ToLower(kind[:1])
+		// moved
+		w := &hwatch{kind: kind, name: p + "moved", mode: "moved"}
+		sx, d := shortEX()
+		w.setAt, w.ttl = time.Now(), d
+		declare(w, sx)
+		declare(w, "100")
+		wantTTL(w, 98, 100, "re-declared identically with EX 100")
+		ws = append(ws, w)
+		// perm-then-ex
+		w = &hwatch{kind: kind, name: p + "perm", mode: "perm-then-ex"}
+		declare(w, "")
+		wantTTL(w, -1, -1, "declared without EX")
+		sx, d = shortEX()
+		w.setAt, w.ttl = time.Now(), d
+		declare(w, sx)
+		w.deadline = time.Now().Add(d)
+		if t := ttlOf(w); (t < 0 || t > 1) && time.Now().Before(w.setAt.Add(w.ttl)) {
+			fail("hook-deadline-not-moved", fmt.Sprintf("%s %s re-declared identically with EX %s: the listing reports ttl %d, expected 0..1", strings.ToLower(w.kind), w.name, sx, t), w.history)
+		}
+		ws = append(ws, w)
+		// ex-then-perm
+		w = &hwatch{kind: kind, name: p + "kept", mode: "ex-then-perm"}
+		sx, _ = shortEX()
+		declare(w, sx)
+		declare(w, "")
+		wantTTL(w, -1, -1, "re-declared identically without EX")
+		ws = append(ws, w)
+		// plain-ex
+		w = &hwatch{kind: kind, name: p + "plain", mode: "plain-ex"}
+		sx, d = shortEX()
+		w.setAt, w.ttl = time.Now(), d
+		declare(w, sx)
+		w.deadline = time.Now().Add(d)
+		ws = append(ws, w)
+	}
+	end := start.Add(2500 * time.Millisecond) // every old deadline (<= 0.7 s) + 1.5 s, plus slack
+	hardEnd := start.Add(6 * time.Second)
+	for time.Now().Before(end) && time.Now().Before(hardEnd) {
+		t0 := time.Now()
+		listed := map[string]bool{}
+		for _, kind := range []string{"CHAN", "HOOK"} {
+			v := c.MustDo(kind+"S", "*")
+			for _, h := range v.Array {
+				if len(h.Array) > 0 {
+					listed[kind+h.Array[0].Str] = true
+				}
+			}
+		}
+		for _, w := range ws {
+			present := listed[w.kind+w.name]
+			what := strings.ToLower(w.kind) + " " + w.name
+			if w.deadline.IsZero() { // must survive
+				if !present && w.gone.IsZero() {
+					w.gone = t0
+					switch {
+					case w.mode == "moved":
+						fail("hook-expired-early", fmt.Sprintf("%s was re-declared identically with EX 100 (first EX %v) and disappeared %v after the first declaration: the old timer was still armed", what, w.ttl, t0.Sub(w.setAt).Round(time.Millisecond)), w.history)
+					default:
+						fail("hook-stale-timer", fmt.Sprintf("%s has no deadline (last declared without EX) and disappeared %v after the scenario started: a stale timer removed it", what, t0.Sub(start).Round(time.Millisecond)), w.history)
+					}
+				}
+				continue
+			}
+			if !present && w.gone.IsZero() {
+				w.gone = t0
+				w.expiredOnce = true
+				if time.Now().Before(w.setAt.Add(w.ttl)) {
+					fail("hook-expired-early", fmt.Sprintf("%s with a %v deadline was already missing %v after it was declared", what, w.ttl, time.Since(w.setAt).Round(time.Millisecond)), w.history)
+				}
+				if w.mode == "perm-then-ex" {
+					// declared permanent once more: must never disappear again
+					declare(w, "")
+					wantTTL(w, -1, -1, "declared again without EX after it had expired")
+					w.deadline, w.gone = time.Time{}, time.Time{}
+					if e := time.Now().Add(1300 * time.Millisecond); e.After(end) {
+						end = e
+					}
+				}
+				continue
+			}
+			if present && w.gone.IsZero() && t0.After(w.deadline.Add(1500*time.Millisecond)) {
+				fail("hook-not-expired", fmt.Sprintf("%s (%s) is still listed %v after its deadline", what, w.mode, t0.Sub(w.deadline).Round(time.Millisecond)), w.history)
+				w.gone = t0 // report once
+			}
+		}
+		time.Sleep(40 * time.Millisecond)
+	}
+	expired, survivors := 0, 0
+	for _, w := range ws {
+		if w.expiredOnce {
+			expired++
+		}
+		if w.deadline.IsZero() && w.gone.IsZero() {
+			survivors++
+		} else if !w.deadline.IsZero() && !w.expiredOnce && w.gone.IsZero() {
+			fail("hook-not-expired", fmt.Sprintf("%s %s (%s) with a %v deadline never disappeared during %v of polling", strings.ToLower(w.kind), w.name, w.mode, w.ttl, time.Since(start).Round(time.Millisecond)), w.history)
+		}
+	}
+	mu.Lock()
+	r.Count(fmt.Sprintf("timed-hooks %d: %d expired %d survivors", i, expired, survivors), expired >= 1 && survivors >= 1)
+	r.Dist("C:timed-hooks")
+	r.TracesImpl++
+	r.Sample(8, map[string]interface{}{"scenario": "timed-hooks", "expired": expired, "survivors": survivors, "example": ws[1].history})
+	mu.Unlock()
 }
